@@ -3,4 +3,4 @@
 package hash
 
 // fieldHasLength reports whether a length is enforced for the field.
-func fieldHasLength(fi *fieldInfo) bool { return fi.Opts.Length > 0 }
+func fieldHasLength(fi *fieldInfo) bool { return fi.Opts.HasLength }
